@@ -1,7 +1,7 @@
 """C07 - a GN/LM step is the documented linear solve: provenance / parity / ordering clauses of step()."""
 import ast, copy
 from ..core import RuleResult, Finding, AnalysisError, dotted, src, norm_construct, ClassInfo
-from ..expr import Inliner, dump, parities, contains, subst, inline_straight, returns_of
+from ..expr import Inliner, dump, parities, contains, subst, inline_straight, returns_of, rv
 from .. import paths
 
 OPT = 'pypose.optim.optimizer'
@@ -169,6 +169,11 @@ def rule_corr(repo, tier):
             continue
         loops[cname] = loop
         ivar = loop.target.id if isinstance(loop.target, ast.Name) else None
+        # the residual / Jacobian lists are whatever is handed to normalize_RWJ (roles, not names)
+        ncs = [c for c in paths.calls_in(f.node) if isinstance(c.func, ast.Attribute) and c.func.attr == 'normalize_RWJ' and len(c.args) == 3]
+        if not ncs or not all(isinstance(a, ast.Name) for a in ncs[0].args):
+            raise AnalysisError('C07.CORR: normalize_RWJ(R, weight, J) call not found in %s.step' % cname)
+        Rn, Wn, Jn = [a.id for a in ncs[0].args]
         # both R[i] and J[i] are overwritten with the call's outputs
         stored = set()
         for st in ast.walk(loop):
@@ -181,13 +186,13 @@ def rule_corr(repo, tier):
         idx = set()
         for c in calls:
             kw = {k.arg: src(k.value).replace(' ', '') for k in c.keywords}
-            if kw.get('R') != 'R[%s]' % ivar or kw.get('J') != 'J[%s]' % ivar:
+            if kw.get('R') != '%s[%s]' % (Rn, ivar) or kw.get('J') != '%s[%s]' % (Jn, ivar):
                 sel_ok = False
             idx.add(src(c.func.slice))
         sel_ok = sel_ok and idx == {'0', ivar}
-        res.inst({'function': f.fq, 'overwrites': sorted(stored), 'selection': sorted(idx), 'ok': sel_ok and stored == {'R', 'J'}}, f.fq)
-        if stored != {'R', 'J'}:
-            res.add(Finding('C07.CORR', f, 'the corrector outputs overwrite %s, both R[i] and J[i] are required' % sorted(stored), node=loop))
+        res.inst({'function': f.fq, 'overwrites': sorted(stored), 'selection': sorted(idx), 'ok': sel_ok and stored == {Rn, Jn}}, f.fq)
+        if stored != {Rn, Jn}:
+            res.add(Finding('C07.CORR', f, 'the corrector outputs overwrite %s, both the residual and the Jacobian handed to normalize_RWJ are required' % sorted(stored), node=loop))
         if not sel_ok:
             res.add(Finding('C07.CORR', f, 'corrector selection is not corrector[0](R=R[i], J=J[i]) for a single corrector else corrector[i](...)',
                             node=loop))
@@ -200,14 +205,16 @@ def rule_corr(repo, tier):
                 if e[0] == 'stmt' and any(isinstance(c.func, ast.Attribute) and c.func.attr == 'normalize_RWJ' for c in paths.calls_in(e[1])):
                     pos_norm = i
                     nc = [c for c in paths.calls_in(e[1]) if isinstance(c.func, ast.Attribute) and c.func.attr == 'normalize_RWJ'][0]
-                    if [dotted(a) for a in nc.args] != ['R', 'weight', 'J']:
+                    if len(nc.args) != 3:
                         res.add(Finding('C07.CORR', f, 'normalize_RWJ is not called with (R, weight, J)', node=nc))
             if pos_norm is not None and (pos_loop is None or pos_loop > pos_norm):
                 res.add(Finding('C07.CORR', f, 'on a dense path normalize_RWJ runs before (or without) the corrector loop', node=loop,
                                 construct='corrector order'))
                 break
     if len(loops) == 2:
-        a, b = (dump(loops['GaussNewton']), dump(loops['LevenbergMarquardt']))
+        from ..core import norm_construct as _nc
+        a = _nc(loops['GaussNewton'], repo.func(OPT, 'GaussNewton.step').node)
+        b = _nc(loops['LevenbergMarquardt'], repo.func(OPT, 'LevenbergMarquardt.step').node)
         res.inst({'pair': 'GN/LM corrector loop', 'equal': a == b}, 'pair-loop')
         if a != b:
             res.add(Finding('C07.CORR', repo.func(OPT, 'LevenbergMarquardt.step'), 'GN and LM apply the correctors differently', construct='sibling loop'))
@@ -373,8 +380,9 @@ def rule_upd(repo, tier):
                         'group parameters would be updated by plain addition instead of the retraction' % ci.base_exprs, construct='MRO'))
     la = repo.func(LT, 'LieTensor.add_')
     rets = returns_of(la.node)
-    okd = len(rets) == 1 and isinstance(rets[0].value, ast.Call) and dotted(rets[0].value.func) == 'self.ltype.add_' and \
-        rets[0].value.args and dotted(rets[0].value.args[0]) == 'self'
+    v0 = rv(la.node, rets[0]) if len(rets) == 1 else None
+    okd = isinstance(v0, ast.Call) and dotted(v0.func) == 'self.ltype.add_' and \
+        v0.args and dotted(v0.args[0]) == 'self'
     res.inst({'function': la.fq, 'dispatches_to_ltype': okd}, la.fq)
     if not okd:
         res.add(Finding('C07.UPD', la, 'LieTensor.add_ must dispatch to self.ltype.add_(self, ...)', construct='dispatch'))
